@@ -404,7 +404,8 @@ def check(an: Analysis) -> None:
                     val = v.args[0] if v.args else next((k.value for k in v.keywords if k.arg == "value"), None)
                     exp = v.args[1] if len(v.args) > 1 else next((k.value for k in v.keywords if k.arg == "expire"), None)
                     exp = unwrap(d.inline(exp)) if exp is not None else None
-                    if not (isinstance(exp, ast.Call) and dotted(exp.func) == "self._next_expire_time"):
+                    written_out = not fi.cls.attr_val.get("_next_expire_time") and not fi.cls.methods.get("_next_expire_time") and exp is not None  # judged by C12.5
+                    if not (isinstance(exp, ast.Call) and dotted(exp.func) == "self._next_expire_time") and not written_out:
                         ob2.fail(fi, st.ast, "the entry's expiry stamp is not self._next_expire_time()")
                 if val is None:
                     ob2.fail(fi, st.ast, "what is stored is not a _CacheEntry(value=..., expire=...)")
@@ -542,7 +543,47 @@ def check(an: Analysis) -> None:
         init = prog.fn(f"{cname}.__init__")
         gi = an.cfg(init)
         dinit = Deps(prog, init)
-        for has in (True, False):
+        # the stamp written out at the store sites (`expire=monotonic() + self._expiration if self._expiration else None`): judged
+        # there, in both situations, from what __init__ keeps in the attribute it reads
+        inline_stamps = []
+        entry_q_ = prog.cls("helpers.caching._CacheEntry").qualname
+        for sib in [prog.fn(q_) for q_, _m, _a in SIBLINGS if prog.fn(q_).cls is ci]:
+            for x in sib.own_nodes():
+                if isinstance(x, ast.Call) and an.callee(sib, x) == entry_q_:
+                    ev_ = next((k.value for k in x.keywords if k.arg == "expire"), x.args[1] if len(x.args) > 1 else None)
+                    if ev_ is not None and not (isinstance(unwrap(ev_), ast.Call) and dotted(unwrap(ev_).func) == "self._next_expire_time"):
+                        inline_stamps.append((sib, x, ev_))
+        if inline_stamps and not ci.attr_val.get("_next_expire_time") and not ci.methods.get("_next_expire_time"):
+            from ..kinds import eval_expr as _ev12
+            from ..kinds import reduce_ifexp as _rif12
+
+            for sib, x, ev_ in inline_stamps:
+                ob.inst(sib, x, "stamp written at the store")
+                for has in (True, False):
+
+                    def kept(e: ast.AST, has=has):
+                        # value of `self.<attr>` as stored by __init__ when expiration is 10.0 / None
+                        if isinstance(e, ast.Attribute) and is_name(e.value, "self") and (vv_ := ci.attr_val.get(e.attr, [])) and len(vv_) == 1 and any(is_name(y, "expiration") for y in ast.walk(vv_[0])):
+                            return _ev12(vv_[0], lambda y, has=has: (10.0 if has else None) if is_name(y, "expiration") else NOVALUE)
+                        return NOVALUE
+
+                    red = unwrap(_rif12(ev_, kept))
+                    none_ = red is None or (isinstance(red, ast.Constant) and red.value is None)
+                    if not has:
+                        if not none_:
+                            ob.fail(sib, x, "without expiration entries get an expiry stamp")
+                        continue
+                    if none_:
+                        ob.fail(sib, x, "with an expiration configured entries never expire")
+                        continue
+                    dsib = Deps(prog, sib)
+                    lf = linear_form(dsib, red, atom_of=lambda y: "EXP" if kept(y) == 10.0 and isinstance(kept(y), float) else None)
+                    if lf is None or {k: int(v_) for k, v_ in lf.items()} != {"call:time.monotonic": 1, "EXP": 1}:
+                        ob.fail(sib, x, f"expiry stamp is {fmt_linear(lf)}, required +call:time.monotonic +<expiration>")
+            variants_done = True
+        else:
+            variants_done = False
+        for has in (True, False) if not variants_done else ():
             variants = _stamp_functions(an, ci, init, gi, dinit, has)
             label = "with an expiration configured" if has else "without expiration"
             if variants is None:
